@@ -1,12 +1,13 @@
 #!/bin/sh
-# MANIFEST.setup_cmd: build the whole Coq development from files on disk (full .vo build).
+# MANIFEST.setup_cmd: build the Coq development needed by the registered checks (full .vo build).
 cd /verif || exit 2
 /venv/bin/python - <<'PY'
-import sys; sys.path.insert(0, '/verif/tools')
+import sys, json; sys.path.insert(0, '/verif/tools')
 import vlib
+targets = [f"Props/{c['property_id']}.vo" for c in json.load(open('/verif/MANIFEST.json'))['checks']]
 with vlib.CoqLock():
     vlib.ensure_makefile()
-    rc, out = vlib.make([], timeout=3300)
+    rc, out = vlib.sh(["make", "-k", "-j16", "--no-print-directory"] + targets, 3300, cwd=vlib.COQ)
 print(out[-4000:])
 sys.exit(rc)
 PY
